@@ -47,6 +47,16 @@ M = [
  ("C12-backport-no-reassemble", "mesh.py", "        self.clear()\n        self.assemble()\n\n    def format_settings", "        self.clear()\n\n    def format_settings", ["C12"]),
  ("C12-clear-forgets-default-patch", "lists/patch_list.py", "        self.patches.clear()\n", "        self.patches.clear()\n        self.default = {}\n", ["C12"]),
  ("C12-clear-forgets-merged", "lists/patch_list.py", "        self.patches.clear()\n", "        self.patches.clear()\n        self.merged = []\n", ["C12"]),
+ ("C13-rollback-keeps-grid-point", "optimize/optimizer.py", "                reporter.rollback()\n\n                clamp.update_params(initial_params)\n                self.grid.update(junction.index, clamp.position)", "                reporter.rollback()\n\n                clamp.update_params(initial_params)", ["C13"]),
+ ("C13-no-rollback", "optimize/optimizer.py", "            if reporter.improvement <= 0:", "            if False:", ["C13"]),
+ ("C13-skip-keeps-state", "optimize/optimizer.py", "            reporter.skip()\n            clamp.update_params(initial_params)\n            self.grid.update(junction.index, clamp.position)", "            reporter.skip()", ["C13"]),
+ ("C13-links-not-updated", "optimize/grid.py", "                self.points[indexed_link.follower_index] = indexed_link.link.follower\n", "                pass\n", ["C13"]),
+ ("C13-sensitivity-not-restored", "optimize/optimizer.py", "        clamp.update_params(initial_params)\n        self.grid.update(junction.index, clamp.position)\n\n        return np.linalg.norm(sensitivities)", "        return np.linalg.norm(sensitivities)", ["C13"]),
+ ("C13-backport-skips-last", "optimize/optimizer.py", "        for i, point in enumerate(self.grid.points):\n            self.mesh.vertices[i].move_to(point)", "        for i, point in enumerate(self.grid.points[:-1]):\n            self.mesh.vertices[i].move_to(point)", ["C13"]),
+ ("C13-mirror-in-place", "util/functions.py", "    point = point - origin\n", "    point -= origin\n", ["C13"]),
+ ("C13-bounds-ignored", "optimize/optimizer.py", "scipy.optimize.minimize(fquality, clamp.params, bounds=clamp.bounds, method=method)", "scipy.optimize.minimize(fquality, clamp.params, method=method)", ["C13"]),
+ ("C13-rotation-link-sign", "optimize/links.py", "        if np.dot(cross_rad, self.axis) < 0:\n            angle = -angle", "        pass", ["C13"]),
+ ("C13-sketch-backport-missing", "optimize/optimizer.py", "        self.sketch.update(self.grid.points)", "        pass", ["C13"]),
 ]
 
 
